@@ -224,6 +224,7 @@ struct Stats {
   uint64_t multi_outcome_points = 0, max_schedules_per_point = 0, tainted = 0;
   uint64_t dev_capped = 0, subset_capped = 0, crash_runs = 0, crash_worlds = 0, io_fault_runs = 0;
   int max_running = 0;
+  uint64_t js_runs = 0, js_moves = 0, js_spins = 0, js_token_wakes = 0;   // jobserver seam: invocations, moves of the other client, ...
   bool complete = true;
   bool memory_stop = false;
   set<string> outcome_kinds;
@@ -2636,6 +2637,13 @@ struct Explorer {
   }
 
   /// C06: limits and liveness on one execution.
+  /// Is this invocation a client of the jobserver pool?  (An explicit -j makes ninja ignore the pool.)
+  static bool UnderJobserver(const Op& op, const RunResult& r) {
+    if (op.cfg.js_tokens < 0 || r.js_total < 0) return false;
+    for (auto& f : op.flags) if (f.compare(0, 2, "-j") == 0) return false;
+    return true;
+  }
+
   void CheckLimits(const Op& op, const RunResult& r, vector<Violation>* out, const vfs::Disk* after = nullptr) {
     // "it always terminates, either having run everything needed or with an error": exit 0 of a real
     // build (not a tool, not -n) while an output in the closure of the targets does not exist
@@ -2676,6 +2684,24 @@ struct Explorer {
       x.detail = "ninja reported 'stuck [this is a bug]'";
       out->push_back(x);
     }
+    // "every token is returned by the time ninja exits on any path" (not when the process was killed: r.crashed)
+    if (op.cfg.js_tokens >= 0 && r.js_total >= 0 && !r.crashed && !r.hang && !r.horizon && r.js_final != r.js_total) {
+      Violation x; x.prop = "C06";
+      x.clause = r.js_final < r.js_total ? "jobserver-token-leaked" : "jobserver-token-invented";
+      x.detail = "the jobserver pool and its other client held " + to_string(r.js_total) + " token(s) when ninja started and " +
+                 to_string(r.js_final) + " after it exited with " + to_string(r.exit_code);
+      x.facts.set("exit", r.exit_code);
+      out->push_back(x);
+    }
+    if (op.cfg.js_tokens >= 0 && r.js_total >= 0 && !UnderJobserver(op, r)) {
+      for (auto& e : r.events)
+        if ((e.kind == Event::kStart || e.kind == Event::kWait) && e.held > 0) {
+          Violation x; x.prop = "C06"; x.clause = "jobserver-used-despite-explicit-j";
+          x.detail = "ninja was given -j explicitly and still took " + to_string(e.held) + " token(s) from the jobserver pool";
+          out->push_back(x);
+          break;
+        }
+    }
     // concurrency: replay the event list
     map<string, int> pool_use;
     int running = 0;
@@ -2699,7 +2725,15 @@ struct Explorer {
           x.facts.set("stmt", rc.spec.id());
           out->push_back(x);
         }
-        if (op.j > 0 && running > op.j) {
+        const bool js = UnderJobserver(op, r);
+        if (js && e.held >= 0 && running > e.held + 1) {
+          Violation x; x.prop = "C06"; x.clause = "over-jobserver-tokens";
+          x.detail = to_string(running) + " commands running while ninja holds " + to_string(e.held) +
+                     " token(s) of the jobserver pool besides its implicit slot";
+          x.facts.set("stmt", rc.spec.id());
+          out->push_back(x);
+        }
+        if (!js && op.j > 0 && running > op.j) {
           Violation x; x.prop = "C06"; x.clause = "over-parallelism";
           x.detail = to_string(running) + " commands running with -j" + to_string(op.j);
           out->push_back(x);
@@ -2787,7 +2821,11 @@ struct Explorer {
       if (w.kind == Event::kFinish && w.status != 0) failures++;
       if (w.kind != Event::kWait) continue;
       if (op.k > 0 && failures >= op.k) break;
-      if (op.j > 0 && (int)w.running.size() >= op.j) continue;
+      const bool js = UnderJobserver(op, r);
+      if (!js && op.j > 0 && (int)w.running.size() >= op.j) continue;
+      // under a jobserver a slot is free when the pool is readable; ninja need not be asleep then: when it watches the
+      // pool, ppoll() returns at once.  Idle = a readable pool it does not watch.
+      if (js && !(w.avail > 0 && !w.watch)) continue;
       for (size_t c = 0; c < n; ++c) {
         if (start_ev[c] < (int)i) continue;  // already started
         const RunCmd& rc = r.cmds[c];
@@ -2857,7 +2895,8 @@ struct Explorer {
         }
         Violation x;
         x.prop = "C06"; x.clause = "idle-slot";
-        x.detail = "ninja waited with " + to_string(w.running.size()) + " running (-j" + to_string(op.j) +
+        x.detail = "ninja waited with " + to_string(w.running.size()) + " running (" +
+                   (js ? to_string(w.avail) + " token(s) in the jobserver pool, not watched" : "-j" + to_string(op.j)) +
                    ") although '" + s.id + "' was startable (it was started later)";
         x.facts.set("stmt", s.id);
         out->push_back(x);
@@ -2918,6 +2957,11 @@ struct Explorer {
       nsched++;
       st.commands += r.cmds.size();
       st.max_running = max(st.max_running, r.max_running);
+      if (r.js_total >= 0) {
+        st.js_runs++;
+        st.js_spins += r.js_spins;
+        for (auto& e : r.events) if (e.kind == Event::kToken) st.js_moves++;
+      }
       vector<Step> hist = w.hist;
       hist.push_back({opi, r.choices});
       if (r.exit_code == -777) {
@@ -3573,6 +3617,7 @@ int main(int argc, char** argv) {
       total.crash_worlds += ex.st.crash_worlds;
       total.io_fault_runs += ex.st.io_fault_runs;
       total.max_running = max(total.max_running, ex.st.max_running);
+      total.js_runs += ex.st.js_runs; total.js_moves += ex.st.js_moves; total.js_spins += ex.st.js_spins;
       for (auto& k : ex.st.outcome_kinds) total.outcome_kinds.insert(k);
       for (auto& v : ex.violations) {
         J o = J::Obj();
@@ -3614,6 +3659,9 @@ int main(int argc, char** argv) {
     out.set("crash_worlds", total.crash_worlds);
     out.set("io_fault_runs", total.io_fault_runs);
     out.set("max_running", total.max_running);
+    out.set("js_runs", total.js_runs);
+    out.set("js_moves", total.js_moves);
+    out.set("js_spins", total.js_spins);
     J ok = J::Arr();
     for (auto& k : total.outcome_kinds) ok.push(k);
     out.set("outcome_kinds", ok);
